@@ -92,3 +92,44 @@ Example C01_nonvacuous :
             map (fun mr => map Qred (m_all mr)) (o_metrics r) = [[Qred (rnd (2 # 3))]; [1 # 2]; [(-1) # 2]]
   | Err _ => False end.
 Proof. vm_compute. repeat split; reflexivity. Qed.
+
+(* ================================================================================================ *)
+(* C01, semantic input -- the whole path "approximate instances, then the instance pipeline" inside the model:
+   [semantic_pipeline] is the composition (Model/Semantic.v), the instances it evaluates are the connected components
+   (Props/C05), and the result does not depend on the order in which a backend numbers the components, as long as the
+   matching is determined (no two competing candidates with equal score).  With a tie the numbering decides which of the
+   tied pairs is matched -- known finding D15. *)
+From Pan Require Import Base.Common Base.Rnd64 Model.MetricTable Model.EdgeCase Model.Metrics Model.Matcher Model.Relabel Model.Result
+  Model.Pipeline Model.CCA Model.Semantic Proofs.CCASpec Proofs.Matching Proofs.MatcherQ Proofs.ResultEquiv Proofs.SemanticFacts.
+
+(* the semantic path is the instance pipeline applied to the two component labellings *)
+Theorem C01_semantic_pipeline_is_composition : forall bk nd x c pred ref,
+  wf pred -> wf ref -> (forall p, In p pred \/ In p ref -> 0 < snd p) ->
+  exists lp np lr nr,
+    is_cca (pick_backend bk nd) pred lp np /\ is_cca (pick_backend bk nd) ref lr nr /\
+    semantic_pipeline bk nd x c pred ref = pipeline x c (join lr lp).
+Proof. exact semantic_pipeline_unfold. Qed.
+
+(* any two valid component labellings of the two maps give equivalent results (threshold matcher, matching determined) *)
+Theorem C01_semantic_result_independent_of_component_numbering :
+  forall b pred ref lp np lp' np' lr nr lr' nr' x x' c,
+  wf pred -> wf ref ->
+  is_cca b pred lp np -> is_cca b pred lp' np' -> is_cca b ref lr nr -> is_cca b ref lr' nr' ->
+  (c_matcher c = 1 \/ c_matcher c = 2) ->
+  (forall rp, In rp (overlap_pairs (join lr lp)) -> x_pair x' (ren lr lr' (fst rp), ren lp lp' (snd rp)) = x_pair x rp) ->
+  (forall m l, In l (ref_labels_of (join lr lp)) -> x_inst x' m (ren lr lr' l) = x_inst x m l) ->
+  competing_distinct Q (better_eq (decreasing (c_mmetric c))) (fun s => beats (decreasing (c_mmetric c)) s (c_mthr c))
+    (c_matcher c =? 2) (cand_list x (c_mmetric c) (join lr lp)) ->
+  res_rel result_equiv (pipeline x c (join lr lp)) (pipeline x' c (join lr' lp')).
+Proof. exact semantic_numbering_independent. Qed.
+
+(* non-vacuity: a 1-D pair with two reference components and three prediction components, scipy backend *)
+Definition exs_ref : smap := [([0], 1); ([1], 1); ([2], 1); ([5], 1); ([6], 1)].
+Definition exs_pred : smap := [([0], 1); ([1], 1); ([3], 1); ([5], 1); ([6], 1); ([8], 1)].
+Definition exs_x : ext := {| x_inst := fun _ _ => 0%Q; x_pair := fun _ => 0%Q; x_union := fun _ _ => 0%Q |}.
+Definition exs_c : cfg := {| c_matcher := 1; c_mmetric := IOU; c_mthr := (1 # 2)%Q; c_ems := [IOU; DSC]; c_dm := None; c_dthr := None;
+                             c_handler := default_handler |}.
+Example C01_semantic_nonvacuous :
+  exists r, semantic_pipeline None 1 exs_x exs_c exs_pred exs_ref = Ok r /\
+            o_np r = 4 /\ o_nr r = 2 /\ o_tp r = 2 /\ o_fp r = 2 /\ o_fn r = 0.
+Proof. eexists. split; [vm_compute; reflexivity|cbn; auto]. Qed.
